@@ -18,8 +18,29 @@ From Coq Require Import List NArith Bool Arith.
 Import ListNotations.
 
 Definition bytes := list N.
-Definition bytes_eq_dec : forall a b : bytes, {a = b} + {a <> b} := list_eq_dec N.eq_dec.
-Definition bytes_eqb (a b : bytes) : bool := if bytes_eq_dec a b then true else false.
+(** byte-string equality: a boolean test (what the VM runs) and the decision built on it;
+    the two small lemmas live here because the definition of [bytes_eq_dec] needs them *)
+Fixpoint bytes_eqb (a b : bytes) : bool :=
+  match a, b with
+  | [], [] => true
+  | x :: a', y :: b' => (x =? y)%N && bytes_eqb a' b'
+  | _, _ => false
+  end.
+Lemma bytes_eqb_true a b : bytes_eqb a b = true -> a = b.
+Proof.
+  revert b. induction a as [|x a IH]; intros [|y b] H; cbn in H; try discriminate; auto.
+  apply andb_true_iff in H. destruct H as [H1 H2]. apply N.eqb_eq in H1. f_equal; auto.
+Qed.
+Lemma bytes_eqb_false a b : bytes_eqb a b = false -> a <> b.
+Proof.
+  intros H E. subst b. induction a as [|x a IH]; cbn in H; [discriminate|].
+  rewrite N.eqb_refl in H. cbn in H. auto.
+Qed.
+Definition bytes_eq_dec (a b : bytes) : {a = b} + {a <> b} :=
+  match bytes_eqb a b as r return bytes_eqb a b = r -> {a = b} + {a <> b} with
+  | true => fun H => left (bytes_eqb_true a b H)
+  | false => fun H => right (bytes_eqb_false a b H)
+  end eq_refl.
 
 (** ** UTF-8 well-formedness (RFC 3629 / Unicode table 3-7) — what [str::from_utf8] accepts *)
 Definition in_range (lo hi b : N) : bool := ((lo <=? b) && (b <=? hi))%N.
@@ -329,7 +350,7 @@ Definition spec_obs (t : sstate) : list N :=
   N.of_nat (spec_pool_len t) :: flat_map (spec_slot_obs t) t.
 
 Definition digest (l : list N) : N :=
-  fold_left (fun h x => ((h * 1000003 + x + 1) mod 2305843009213693951)%N) l 7%N.
+  fold_left (fun h x => N.land (N.lxor (N.shiftl h 7) (N.shiftr h 3) + x + 1) 1152921504606846975)%N l 7%N.
 
 (** digests of the observation after every step; a crash yields 0 from there on *)
 Fixpoint impl_trace (s : option state) (ops : list op) : list N :=
